@@ -64,6 +64,9 @@ def run_case(c):
         oc, arrays, cfg = sc.place(ok)
     E = jnp.asarray(quarter(c["E"]))
     H = jnp.asarray(quarter(c["H"]))
+    if c.get("Eim") is not None:      # complex field storage (use_complex_fields / Bloch): real-output detectors only
+        E = jnp.asarray(quarter(c["E"]) + 1j * quarter(c["Eim"]))
+        H = jnp.asarray(quarter(c["H"]) + 1j * quarter(c["Him"]))
     arrays = arrays.aset("fields->E", E).aset("fields->H", H)
     arrays = arrays.aset("inv_permittivities", jnp.asarray(quarter(c["ie"])))
     if c.get("im") is not None:
